@@ -319,6 +319,10 @@ func (w *syWorld) react(a k8stesting.Action) (bool, runtime.Object, error) {
 	if a.GetResource().Resource == "events" {
 		return true, nil, nil
 	}
+	if a.GetNamespace() == "" && (a.GetVerb() == "get" || a.GetVerb() == "update") && a.GetResource().Resource == "controllerrevisions" {
+		// a get / update of a namespaced object with an empty namespace and name never leaves the REST client
+		return true, &kubeapps.ControllerRevision{}, apierrors.NewBadRequest("resource name may not be empty")
+	}
 	key := actionKey(a)
 	w.mu.Lock()
 	occ := w.count[key]
@@ -349,6 +353,11 @@ func (w *syWorld) react(a k8stesting.Action) (bool, runtime.Object, error) {
 			for _, o := range w.setIdx.List() {
 				_ = w.setIdx.Delete(o)
 			}
+		}
+		if kind == "conflictrest" {
+			// the REST client hands back an EMPTY object next to an error, never nil (`result = &v1.ControllerRevision{}` ...
+			// `.Into(result)`); the fake clientset returns nil. updateControllerRevision looks at that object.
+			return true, &kubeapps.ControllerRevision{}, errOfKind("conflict", a, key)
 		}
 		return true, nil, errOfKind(kind, a, key)
 	}
@@ -1012,7 +1021,13 @@ func genSync(rng *rand.Rand, n int, emit func(string)) {
 					if f.key == "updatestatus" && f.kind == "conflict" && rng.Intn(2) == 0 {
 						f.kind = "conflictgone"
 					}
+					if strings.HasPrefix(f.key, "update:rev:") && f.kind == "conflict" && rng.Intn(2) == 0 {
+						f.kind = "conflictrest" // judged by the monitors only
+					}
 					c.faults = append(c.faults, f)
+					if f.kind == "conflictrest" {
+						continue
+					}
 					if f.kind == "conflict" && rng.Intn(2) == 0 { // a burst of conflicts on one call
 						for b := 1; b <= 1+rng.Intn(4); b++ {
 							c.faults = append(c.faults, syFault{key: f.key, occ: occ + b, kind: "conflict"})
